@@ -221,6 +221,8 @@ def make(i, base_seed, tier, lite_tx=False, lite_rx=False):
     if xr.random() < 0.15:
         # a very slow bus (interpreted MCU, bit-banged SPI): one transaction outlasts a re-transmission and its ACK
         scn["tx_knobs"] = dict(scn["tx_knobs"], spi_overhead_us=xr.choice([800, 1500]), spi_jitter_us=xr.choice([0, 200]))
+    if xr.random() < 0.3:
+        scn["retry_history"] = [xr.choice([250, 500, 1000, 2000, 4000]), xr.choice([0, 1, 2, 5, 10, 15]), xr.choice(["ard", "arc"])]
     scn["ops"] = ops
     ar = stream(seed, "air")
     faults = []
@@ -265,8 +267,19 @@ def _run(scn, w, res):
     sim.main.mcu = mcu
     rt, tx, rr, rx = common.setup_link(w, cfg, mcu, mcu)
     arc, ard = scn["arc"], scn["ard"]
-    tx.arc = arc
-    tx.ard = ard
+    if scn.get("retry_history") and hasattr(tx, "set_auto_retries"):
+        # configuration history: the retry setup was first made in one call, then one of its halves changed through the attribute
+        tx.set_auto_retries(scn["retry_history"][0], scn["retry_history"][1])
+        sim.count("retry_setup_made_in_two_steps")
+        if scn["retry_history"][2] == "ard":
+            tx.set_auto_retries(scn["retry_history"][0], arc)
+            tx.ard = ard
+        else:
+            tx.set_auto_retries(ard, scn["retry_history"][1])
+            tx.arc = arc
+    else:
+        tx.arc = arc
+        tx.ard = ard
     if mode == "ackpl":
         tx.ack = True
         rx.ack = True
@@ -345,6 +358,10 @@ def _run(scn, w, res):
                         % (name, r, mine[-1]["result"], [c["attempts"] for c in mine]))
             elif not ok and len(mine) < 1 + fr:
                 res.add("truth", {"kind": "gave_up_early", "op": name}, "%s returned %r after %d of %d cycles" % (name, r, len(mine), 1 + fr))
+            elif not ok and any(cy["expects_ack"] and cy["attempts"] != 1 + arc for cy in mine):
+                # "False iff every automatic ... retry went unacknowledged": each failed cycle made the configured number of attempts
+                res.add("truth", {"kind": "wrong_number_of_attempts", "op": name},
+                        "%s returned %r after cycles of %r attempts; arc = %d was configured (SETUP_RETR = 0x%02X)" % (name, r, [cy["attempts"] for cy in mine], arc, rt.r[4]))
             if ok:
                 apl = mine[-1]["ackpl"]
                 if apl is not None:
